@@ -5,7 +5,6 @@ import (
 	"os"
 )
 
-func workerMain(args []string) { fmt.Fprintln(os.Stderr, "worker: not built yet"); os.Exit(2) }
 // replayMain: harness replay VERB '<case sexp>' — prints the library's outcome.
 func replayMain(args []string) {
 	if len(args) != 2 {
